@@ -187,6 +187,11 @@ class Program:
                         c2 = [f for f in c if self.src.trait_args.get(f.impl_span, []) in ([h], [])]
                         if len(c2) > 1: c2 = [f for f in c2 if self.src.trait_args.get(f.impl_span, []) == [h]] or c2
                     if len(c2) == 1: return c2[0]
+                    # two types of the same name in different modules (stdlib and jekyll both have an `IncludeTag`): the check may state which one it built
+                    pref = getattr(self, 'prefer_paths', None)
+                    if pref:
+                        c3 = [f for f in c if any(p_ in f.name for p_ in pref)]
+                        if len(c3) == 1: return c3[0]
                     raise Unsupported(f'ambiguous trait method {callee} (args {[repr(a)[:60] for a in args]}): {len(c)} candidates {[x.name for x in c[:3]]}')
             # provided (default) trait method
             c = [f for f in self.by_short.get(method, []) if not f.impl_span and f.name.endswith(f'{trait}::{method}')]
